@@ -26,6 +26,14 @@ fn main() {
     let code = match args[1].as_str() {
         "dse" => dse::main(rest),
         "eval" => eval::main(),
+        "crlf-depth" => {
+            // replace_crlf on N CR LF pairs in this (expendable) process: a stack overflow kills it
+            let n: usize = rest[0].parse().unwrap();
+            let input = b"\r\n".repeat(n);
+            let out = scrut::newline::replace_crlf(&input);
+            println!("{}", out.len());
+            0
+        }
         "replay-diff" => {
             println!("{}", dse::replay(&read_json(&rest[0])));
             0
